@@ -734,6 +734,16 @@ class EvolveAppTask(BaseEvolutionTask):
             applied_evolutions = get_applied_evolutions(task.app,
                                                         database=database_name)
 
+            if not task.evolution_required and task.new_evolutions:
+                # This task has nothing to execute, and is not in the graph.
+                # The evolutions it only records as applied (ones without
+                # any mutations) have nothing anybody could wait for, so a
+                # dependency on them is as good as satisfied.
+                applied_evolutions = list(applied_evolutions) + [
+                    evolution.label
+                    for evolution in task.new_evolutions
+                ]
+
             if applied_evolutions:
                 graph.mark_evolutions_applied(task.app, applied_evolutions)
 
